@@ -48,7 +48,7 @@ def tset(xs) -> str:
 
 def dom(**kw) -> dict:
     base = dict(ALLOWFORCE=AF4, RESOLVES=["off"], STUBMODES=["none"], LAYOUTS=["flat", "chain"], TOPS=TOPS6, KIDSA=K4, KIDSB=K4,
-                TOPFAULTS=F4, KIDFAULTS=F4, EXTFAULTS=["none"], EXTSTYLES=["none"], EXTPRIVATES=[False], EXTKINDS=["missing"], PATHMUTS=["none"], SUBMODS=[True], OBJSPECS=["name"], ENTRIES=["load"])
+                TOPFAULTS=F4, KIDFAULTS=F4, EXTFAULTS=["none"], EXTSTYLES=["none"], EXTPRIVATES=[False], EXTKINDS=["missing"], PATHMUTS=["none"], SUBMODS=[True], OBJSPECS=["name"], ENTRIES=["load"], ONPATHS=[False])
     base.update(kw)
     return base
 
@@ -76,6 +76,13 @@ DOMAINS = {
         # the second caller of the protocol: load_git on a real repository (options forwarded)
         "git": dom(ENTRIES=["load_git"], OBJSPECS=["name", "dotted"], LAYOUTS=["flat"], TOPS=["py", "so", "sofile", "missing"],
                    KIDSA=["py", "so", "xc", "missing"], KIDSB=["missing"], TOPFAULTS=["none", "raises"], KIDFAULTS=["none"]),
+        # options assigned to the attributes of an already built loader (built with the defaults), incl. external packages
+        "attrs": dom(ENTRIES=["attrs"], OBJSPECS=["name", "dotted"], RESOLVES=["off", "true"], LAYOUTS=["flat"], TOPS=["py", "so", "sofile", "zip", "missing"],
+                     KIDSA=["so", "missing"], KIDSB=["missing"], TOPFAULTS=["none", "raises"], KIDFAULTS=["none"],
+                     EXTSTYLES=["none", "name"], EXTKINDS=["sofile"], EXTFAULTS=["none"]),
+        # the search directory is already on sys.path; bodies leave sys.path alone / modify it in place / rebind it
+        "onpath": dom(ONPATHS=[True], ENTRIES=["load", "attrs"], PATHMUTS=["none", "inplace", "rebind"], LAYOUTS=["flat"], TOPS=["py", "sofile"],
+                      KIDSA=["so", "py", "missing"], KIDSB=["missing"], TOPFAULTS=["none", "exit"], KIDFAULTS=["none"]),
         # stubs: in-package __init__.pyi, stubs-only package with / without find_stubs_package
         "stubs": dom(STUBMODES=["inpkg", "ext", "find", "find+ext"], LAYOUTS=["flat"], KIDSA=["py", "so", "missing"], KIDSB=["missing"],
                      TOPFAULTS=["none", "raises"], KIDFAULTS=["none", "missingdep"]),
@@ -98,6 +105,12 @@ DOMAINS = {
         "git": dom(ENTRIES=["load_git"], OBJSPECS=["name", "dotted"], RESOLVES=["off", "true"], TOPS=["py", "pyi", "so", "ns", "sofile", "missing"],
                    KIDSA=["py", "so", "xc", "missing"], KIDSB=["so", "missing"], TOPFAULTS=["none", "raises"], KIDFAULTS=["none", "exit"],
                    EXTSTYLES=["none", "name"], EXTKINDS=["sofile"], EXTFAULTS=["none"]),
+        "attrs": dom(ENTRIES=["attrs"], OBJSPECS=["name", "dotted"], RESOLVES=["off", "true", "none"], STUBMODES=["none", "inpkg"],
+                     TOPS=["py", "pyi", "so", "ns", "sofile", "zip", "missing"], KIDSA=["py", "so", "xc", "missing"], KIDSB=["so", "missing"],
+                     TOPFAULTS=["none", "raises"], KIDFAULTS=["none", "exit"], EXTSTYLES=["none", "name", "star"], EXTPRIVATES=[False, True],
+                     EXTKINDS=["py", "sofile"], EXTFAULTS=["none", "raises"]),
+        "onpath": dom(ONPATHS=[True], ENTRIES=["load", "attrs"], PATHMUTS=["none", "inplace", "rebind"], TOPS=["py", "so", "ns", "sofile", "zip"],
+                      KIDSA=["so", "py", "missing"], KIDSB=["so", "missing"], TOPFAULTS=["none", "exit", "raises"], KIDFAULTS=["none", "raises"]),
         "siblings": dom(KIDSA=["both", "py", "pyi", "so", "missing"], KIDSB=["both", "so", "missing"], TOPS=["py", "pyi", "ns", "so"],
                         TOPFAULTS=["none", "raises"], KIDFAULTS=["none", "raises", "exit"]),
         "stubs": dom(STUBMODES=["inpkg", "ext", "find", "find+ext"], KIDSA=["py", "pyi", "so", "missing"], KIDSB=["missing", "so"],
@@ -115,7 +128,8 @@ DOMAINS = {
 # must report every one of these invariants violated and must not report CleanHolds
 MODEL_BUGS = {"allowFirst": "CatchAllowFirst", "noReraise": "CatchNoReraise", "noFinally": "CatchNoFinally", "stubsDynamic": "CatchStubsDynamic",
               "externalInspect": "CatchExternalInspect", "pydInspected": "CatchPydInspected", "guardedRestore": "CatchGuardedRestore",
-              "probeOnMiss": "CatchProbeOnMiss", "gitDropsAllow": "CatchGitDropsAllow"}
+              "probeOnMiss": "CatchProbeOnMiss", "gitDropsAllow": "CatchGitDropsAllow",
+              "cachedFlag": "CatchCachedFlag", "skipSwapOnPath": "CatchSkipSwapOnPath"}
 
 EVENT_FIELDS = {
     "LoadExtensions": ["touched"], "Load": ["pkg"], "ResolveExternal": ["pkg"], "FindSpec": ["pkg", "res", "stubs", "viastubs"],
@@ -123,14 +137,14 @@ EVENT_FIELDS = {
     "DynImport": ["m"], "DynImportOk": ["m"], "DynImportFail": ["m"], "EnterSysPath": ["replaced"], "TryImport": ["m"], "Import": ["m"],
     "ImportOk": ["m"], "ImportFail": ["m"], "ExitSysPath": ["restored", "by"], "InspectTop": ["m"], "Inspected": ["m"], "InspectFail": ["m"],
     "WrapError": ["m", "frm", "to"], "LoadReturn": ["pkg", "path_ok"], "LoadRaise": ["pkg", "exc", "path_ok"], "Return": ["path_ok"],
-    "Raise": ["exc", "path_ok"], "Checkout": [], "Cleanup": ["path_ok"],
+    "Raise": ["exc", "path_ok"], "Checkout": [], "Cleanup": ["path_ok"], "SetOptions": ["allow", "force"],
 }
 # JVM options (tlc.run passes `env` on): tiny runs are start-up bound -> C1 only; all runs: few GC threads (many JVMs run concurrently)
 JVM_TINY = {"JAVA_TOOL_OPTIONS": "-XX:TieredStopAtLevel=1 -XX:ParallelGCThreads=1 -XX:CICompilerCount=1"}
 JVM_MAIN = {"JAVA_TOOL_OPTIONS": "-XX:ParallelGCThreads=2"}
 ACTIONS = ["LoadExtensions", "LoadMain", "ResolveExternal", "FindSpec", "ChooseAgent", "Visit", "Submodule", "CreateNsParent", "SkipSubmodule", "DynImport",
            "EnterSysPath", "TryImport", "Import", "ImportOk", "ImportFail", "ExitSysPath", "DynImportOk", "DynImportFail", "InspectTop", "Inspected",
-           "InspectFail", "WrapError", "StubPass", "LoadReturn", "LoadMissing", "LoadRaise", "Return", "Raise", "Checkout", "Cleanup"]
+           "InspectFail", "WrapError", "StubPass", "LoadReturn", "LoadMissing", "LoadRaise", "Return", "Raise", "Checkout", "Cleanup", "SetOptions"]
 LEGAL_OUTCOMES = ("Return", "ModuleNotFoundError", "ImportError", "LoadingError")
 
 
@@ -384,7 +398,7 @@ def selftest_verdicts(run: Run, verdicts: dict, expect: dict):
 
 def selftest_model_bugs(run: Run):
     """every seeded defect of the model must make TLC report its Catch... invariant (vacuity guard for the clauses)."""
-    res = tlc.run("LoadProtocol", "LoadProtocol_bugs.cfg", workers=1, deadlock=True, timeout=900, env=JVM_TINY, heap="512m", extra=["-continue"])
+    res = tlc.run("LoadProtocol", "LoadProtocol_bugs.cfg", workers=2, deadlock=True, timeout=900, env=JVM_TINY, heap="512m", extra=["-continue"])
     if res.errors or not res.finished:
         print(res.tail)
         die(f"C15: TLC failed on the seeded model defects: {res.errors[:2]}")
@@ -400,7 +414,7 @@ def selftest_model_bugs(run: Run):
 def sig_of(cfg: dict, clause: str, r: dict) -> dict:
     return {"clause": clause, "mode": mode_of(cfg), "top": cfg["file"]["p"], "stubs": cfg["stubs"] + ("+find" if cfg["findstubs"] else ""),
             "ext": cfg["extstyle"] if cfg["extstyle"] == "none" else cfg["extstyle"] + ":" + cfg["extkind"], "pathmut": cfg.get("pathmut", "none"),
-            "call": cfg.get("entry", "load") + ":" + cfg.get("objspec", "name") + ("" if cfg.get("submodules", True) else "+nosub"), "outcome": r["outcome"]}
+            "call": cfg.get("entry", "load") + ("+onpath" if cfg.get("onpath") else "") + ":" + cfg.get("objspec", "name") + ("" if cfg.get("submodules", True) else "+nosub"), "outcome": r["outcome"]}
 
 
 def judge(run: Run, case: dict, r: dict, variants: list | None) -> tuple:
